@@ -11,6 +11,7 @@ import (
 	"runtime"
 	"sort"
 	"strconv"
+	"strings"
 	"sync"
 	"time"
 )
@@ -156,6 +157,17 @@ func (c *Ctx) Require(name string, min int64) { c.mu.Lock(); c.minimums[name] = 
 func (c *Ctx) Violate(signature, what string, witness any) {
 	c.mu.Lock()
 	defer c.mu.Unlock()
+	// a dropped harness connection is a failure of the transport between the monitor and the
+	// instance, not an answer of the store: the case is inconclusive (a dead instance ends the
+	// whole process and is reported as process death by ./check)
+	if signature == "store:legal-write-refused" || signature == "concurrency:read-failed" {
+		for _, t := range []string{"nats: connection closed", "nats: invalid connection", "nats: no servers available", "nats: connection disconnected"} {
+			if strings.Contains(what, t) {
+				c.inconclusive = append(c.inconclusive, "transport: "+signature+": "+what)
+				return
+			}
+		}
+	}
 	v := Violation{Signature: signature, What: what, Witness: witness}
 	for _, f := range c.known {
 		if f.Signature == signature {
